@@ -286,8 +286,6 @@ def OptWT (S : List Sym) : Option TExpr → Prop
 
 def ListWT (S : List Sym) (es : List TExpr) : Prop := ∀ x, x ∈ es → WT S x
 
-def IxWT (S : List Sym) (ix : IndexOperator) : Prop := ListWT S (ixTexprs ix)
-
 @[simp] theorem optWT_some (e : TExpr) : OptWT S (some e) ↔ WT S e := Iff.rfl
 @[simp] theorem optWT_none : OptWT S none ↔ True := Iff.rfl
 @[simp] theorem listWT_nil : ListWT S [] ↔ True := by simp [ListWT]
@@ -324,6 +322,78 @@ theorem wt_newTexprWithCast (op : BinaryOp) (hop : op ≠ .powerOp) {l r : TExpr
 
 theorem wt_literal {l : Literal} {t : T} (h : literalType l = some t) : WT S (.mk (.literal l) t) :=
   .literal h
+
+theorem wt_range {a c : TExpr} {b : Option TExpr} (ha : WT S a) (hb : OptWT S b) (hc : WT S c) :
+    WT S (rangeExpressionToTexpr a b c) := by
+  refine .range ha ?_ hc
+  intro x hx; subst hx; exact hb
+
+theorem wt_return {v : Option TExpr} (h : OptWT S v) : WT S (returnExpressionToTexpr v) := by
+  cases v with
+  | none => exact .returnNone
+  | some e => exact .returnSome h
+
+theorem wt_hardwareQubit (h : Ast.HardwareQubit) : WT S (hardwareQubitToAsgTexpr h) := .hardwareQubit
+
+/-- parameter lists of calls -/
+def OptListWT (S : List Sym) : Option (List TExpr) → Prop
+  | some ps => ListWT S ps
+  | none => True
+
+theorem wt_call {sym : SymbolIdResult} {t ret : T} {n : Nat} {params : Option (List TExpr)}
+    (h1 : SymTyped S sym t) (h2 : t = .subroutine n ret) (h3 : OptListWT S params) :
+    WT S (subroutineCallToTexpr sym params ret) := by
+  subst h2
+  cases sym with
+  | error e => cases h1
+  | ok id =>
+    obtain ⟨name, hn⟩ := h1
+    refine .call hn ?_
+    intro ps hps; subst hps; exact h3
+
+def IxWT (S : List Sym) (ix : IndexOperator) : Prop := ListWT S (ixTexprs ix)
+
+def IxsWT (S : List Sym) (ixs : List IndexOperator) : Prop := ∀ ix, ix ∈ ixs → IxWT S ix
+
+/-- an `IndexedIdentifier` and the type returned next to it -/
+def IIWT (S : List Sym) : IndexedIdentifier → T → Prop
+  | .mk sym ixs, t => SymTyped S sym t ∧ IxsWT S ixs
+
+theorem wt_indexExpression {e : TExpr} {ix : IndexOperator} (h1 : WT S e) (h2 : IxWT S ix) :
+    WT S (indexExpressionToTexpr e ix) := .indexExpression h1 h2
+
+theorem wt_indexedIdentifier {ii : IndexedIdentifier} {t : T} (h : IIWT S ii t) :
+    WT S (indexedIdentifierToTexpr ii) := by
+  cases ii with
+  | mk sym ixs => exact .indexedIdentifier h.2
+
+theorem wt_gateOperand_ident {sym : SymbolIdResult} {t : T} (h : SymTyped S sym t) :
+    WT S (gateOperandToTexpr (.identifier sym) t) := .gateOperandIdent h
+
+theorem wt_gateOperand_hw (name : String) :
+    WT S (gateOperandToTexpr (.hardwareQubit name) .hwqubit) := .gateOperandHw
+
+theorem wt_gateOperand_indexed {ii : IndexedIdentifier} {t : T} (h : IIWT S ii t) :
+    WT S (gateOperandToTexpr (.indexedIdentifier ii) t) := by
+  cases ii with
+  | mk sym ixs => exact .gateOperandIndexed h.1 h.2
+
+theorem ixWT_set {es : List TExpr} (h : ListWT S es) : IxWT S (.setExpression es) := h
+theorem ixWT_list {es : List TExpr} (h : ListWT S es) : IxWT S (.expressionList es) := h
+
+theorem iiWT_mk {sym : SymbolIdResult} {t : T} {ixs : List IndexOperator} (h1 : SymTyped S sym t)
+    (h2 : IxsWT S ixs) : IIWT S (.mk sym ixs) t := ⟨h1, h2⟩
+
+theorem ixsWT_nil : IxsWT S [] := by intro ix h; cases h
+theorem ixsWT_cons {ix : IndexOperator} {ixs : List IndexOperator} (h1 : IxWT S ix)
+    (h2 : IxsWT S ixs) : IxsWT S (ix :: ixs) := by
+  intro x hx
+  cases hx with
+  | head => exact h1
+  | tail _ h => exact h2 x h
+
+theorem listWT_cons' {e : TExpr} {es : List TExpr} (h1 : WT S e) (h2 : ListWT S es) :
+    ListWT S (e :: es) := (listWT_cons e es).mpr ⟨h1, h2⟩
 
 /-! ### primitives of the pass -/
 
@@ -438,9 +508,10 @@ macro_rules | `(tactic| wt_close) => `(tactic| first
 
 /-- a leaf: the accumulated facts imply the postcondition -/
 macro "spec_leaf" : tactic => `(tactic|
-  (intros
+  (try simp only [and_imp]
+   intros
    subst_vars
-   try simp only [optWT_some, optWT_none, listWT_cons, listWT_nil, and_true, true_and,
+   try simp only [optWT_some, optWT_none, listWT_nil, and_true, true_and,
      forall_const, imp_self] at *
    wt_close))
 
@@ -459,6 +530,7 @@ syntax "spec_ih" : tactic
 macro_rules | `(tactic| spec_ih) => `(tactic| fail "no ih")
 
 macro "spec_step" : tactic => `(tactic| first
+  | (cases ‹_ + 1 = Nat.succ _›)
   | (spec_head Sema.fail; first
       | with_reducible exact Spec.fail _ _
       | with_reducible exact Spec.fail _ (fun _ => True)
@@ -522,6 +594,29 @@ theorem Spec.negativeFloatNumberToAsgType (fmt : Option String) :
 macro_rules | `(tactic| spec_lemma) => `(tactic| (spec_head Sema.negativeFloatNumberToAsgType; spec_use (Spec.negativeFloatNumberToAsgType _)))
 
 macro_rules | `(tactic| wt_close) => `(tactic| exact wt_literal rfl)
+macro_rules | `(tactic| wt_close) => `(tactic| first
+  | exact wt_hardwareQubit _
+  | exact wt_gateOperand_hw _
+  | exact ixsWT_nil
+  | (apply wt_newTexprWithCast <;> wt_close)
+  | (apply wt_castToTexpr <;> wt_close)
+  | (apply wt_minus <;> wt_close)
+  | (apply wt_measure <;> wt_close)
+  | (apply wt_range <;> wt_close)
+  | (apply wt_return <;> wt_close)
+  | (apply wt_call <;> wt_close)
+  | (apply wt_indexExpression <;> wt_close)
+  | (apply wt_indexedIdentifier <;> wt_close)
+  | (apply wt_gateOperand_ident <;> wt_close)
+  | (apply wt_gateOperand_indexed <;> wt_close)
+  | (apply ixWT_set <;> wt_close)
+  | (apply ixWT_list <;> wt_close)
+  | (apply iiWT_mk <;> wt_close)
+  | (apply ixsWT_cons <;> wt_close)
+  | (apply listWT_cons' <;> wt_close)
+  | (apply WT.identifier <;> wt_close))
+
+theorem Spec.unitCheck_template : True := trivial
 
 theorem Spec.literalToAsgTexpr (l : Ast.Literal) : Spec S (literalToAsgTexpr l) (OptWT S) := by
   unfold Sema.literalToAsgTexpr; spec
@@ -544,18 +639,57 @@ theorem Spec.scalarTypeToType (st : Ast.ScalarType) (isconst : Bool) :
   unfold Sema.scalarTypeToType; spec
 macro_rules | `(tactic| spec_lemma) => `(tactic| (spec_head Sema.scalarTypeToType; spec_use (Spec.scalarTypeToType _ _)))
 
+theorem Spec.notGlobalCheck (node : Ast.Span) :
+    Spec S (notGlobalCheck node) (fun _ => True) := by
+  unfold Sema.notGlobalCheck; spec
+macro_rules | `(tactic| spec_lemma) => `(tactic| (spec_head Sema.notGlobalCheck; spec_use (Spec.notGlobalCheck _)))
+
+theorem Spec.gateNotGlobalCheck (name : Option Ast.Name) :
+    Spec S (gateNotGlobalCheck name) (fun _ => True) := by
+  unfold Sema.gateNotGlobalCheck; spec
+macro_rules | `(tactic| spec_lemma) => `(tactic| (spec_head Sema.gateNotGlobalCheck; spec_use (Spec.gateNotGlobalCheck _)))
+
+theorem Spec.returnGlobalCheck (node : Ast.Span) :
+    Spec S (returnGlobalCheck node) (fun _ => True) := by
+  unfold Sema.returnGlobalCheck; spec
+macro_rules | `(tactic| spec_lemma) => `(tactic| (spec_head Sema.returnGlobalCheck; spec_use (Spec.returnGlobalCheck _)))
+
+theorem Spec.delayDurationCheck (d : TExpr) (n : Ast.Span) :
+    Spec S (delayDurationCheck d n) (fun _ => True) := by
+  unfold Sema.delayDurationCheck; spec
+macro_rules | `(tactic| spec_lemma) => `(tactic| (spec_head Sema.delayDurationCheck; spec_use (Spec.delayDurationCheck _ _)))
+
+theorem Spec.quantumBinopCheck (l r : TExpr) (a b : Option Ast.Expr) :
+    Spec S (quantumBinopCheck l r a b) (fun _ => True) := by
+  unfold Sema.quantumBinopCheck; spec
+macro_rules | `(tactic| spec_lemma) => `(tactic| (spec_head Sema.quantumBinopCheck; spec_use (Spec.quantumBinopCheck _ _ _ _)))
+
+theorem Spec.gateOperandIdentCheck (t : T) (n : Ast.Span) :
+    Spec S (gateOperandIdentCheck t n) (fun _ => True) := by
+  unfold Sema.gateOperandIdentCheck; spec
+macro_rules | `(tactic| spec_lemma) => `(tactic| (spec_head Sema.gateOperandIdentCheck; spec_use (Spec.gateOperandIdentCheck _ _)))
+
+theorem Spec.gateOperandIndexedCheck (t : T) (n : Ast.Span) :
+    Spec S (gateOperandIndexedCheck t n) (fun _ => True) := by
+  unfold Sema.gateOperandIndexedCheck; spec
+macro_rules | `(tactic| spec_lemma) => `(tactic| (spec_head Sema.gateOperandIndexedCheck; spec_use (Spec.gateOperandIndexedCheck _ _)))
+
+theorem Spec.gateCallCheck (sp : Ast.Span) (q : Option Ast.QubitList) (al : Option Ast.ArgList) (g : Ast.Identifier) (sr : SymbolIdResult) (gt : T) (np nq : Nat) :
+    Spec S (gateCallCheck sp q al g sr gt np nq) (fun _ => True) := by
+  unfold Sema.gateCallCheck; spec
+macro_rules | `(tactic| spec_lemma) => `(tactic| (spec_head Sema.gateCallCheck; spec_use (Spec.gateCallCheck _ _ _ _ _ _ _ _)))
+
+theorem Spec.defArityCheck (a b : Nat) (al : Option Ast.ArgList) :
+    Spec S (defArityCheck a b al) (fun _ => True) := by
+  unfold Sema.defArityCheck; spec
+macro_rules | `(tactic| spec_lemma) => `(tactic| (spec_head Sema.defArityCheck; spec_use (Spec.defArityCheck _ _ _)))
+
+theorem Spec.mutateConstCheck (ok : Bool) (t : T) (n : Ast.Span) :
+    Spec S (mutateConstCheck ok t n) (fun _ => True) := by
+  unfold Sema.mutateConstCheck; spec
+macro_rules | `(tactic| spec_lemma) => `(tactic| (spec_head Sema.mutateConstCheck; spec_use (Spec.mutateConstCheck _ _ _)))
+
 /-! ### the expression part of the mutual block -/
-
-/-- an `IndexedIdentifier` and the type returned next to it -/
-def IIWT (S : List Sym) : IndexedIdentifier → T → Prop
-  | .mk sym ixs, t => SymTyped S sym t ∧ ∀ ix, ix ∈ ixs → IxWT S ix
-
-def IxsWT (S : List Sym) (ixs : List IndexOperator) : Prop := ∀ ix, ix ∈ ixs → IxWT S ix
-
-/-- parameter lists of calls -/
-def OptListWT (S : List Sym) : Option (List TExpr) → Prop
-  | some ps => ListWT S ps
-  | none => True
 
 /-- the specifications of the twelve expression functions at one fuel level -/
 structure AllSpec (S : List Sym) (fuel : Nat) : Prop where
